@@ -121,10 +121,17 @@ def fake_proc_cases(ctx, k, files, modes=(False, True), nbams=1):
         for file in files:
             alns = [FA(*a) for a in file]
             for hm in modes:
+                order = file
                 if nbams == 1: pairs = [(FakeBam(alns), "f0")]
-                else: pairs = [(FakeBam(alns[i::nbams]), "f%d" % i) for i in range(nbams)]
+                else:
+                    # several input files: the stream process() sees is the k-way merge (ties on (start, end) go to the lower file index);
+                    # the merge itself is property C12's subject, here its output order is taken from the real merger
+                    pairs = [(FakeBam(alns[i::nbams]), "f%d" % i) for i in range(nbams)]
+                    from src import alignment_processor as ap
+                    byid = {a[2]: a for a in file}
+                    order = [byid[a.query_name] for _, a in ap.BAMOnlineMerger(pairs, "c", 0, 10 ** 7, multiple_iterators=True).get()]
                 out, stats = run_process(pairs, "c", 10 ** 7, hm)
-                cases.append(proc_case(k, hm, file, out, stats))
+                cases.append(proc_case(k, hm, order, out, stats))
     return cases
 
 
@@ -291,7 +298,9 @@ def run(ctx):
                     if v2 is not None and v2 >= 0: prof[v2] = low
                     first = 7; cov = [(first + i, v) for i, v in enumerate(prof)]
                     for o1 in (0, 1, 255):
-                        cases.append(split_case(REAL, (first * B + rnd.choice([0, 1, 77]), (first + total - 1) * B + o1), 1024, cov)); nlong += 1
+                        r = (first * B + rnd.choice([0, 1, 77]), (first + total - 1) * B + o1)
+                        if r[0] > r[1]: r = (first * B, r[1])                  # a genomic region is never inverted
+                        cases.append(split_case(REAL, r, 1024, cov)); nlong += 1
     ctx.rule("split_coverage_regions: EVERY coverage profile over 1..%d bins with values {0,1,2,300} x region start/end offsets {0,1,255} to the bin grid (MAX_REGION_LEN=3*256, MIN_READS_TO_SPLIT=4), "
              "five other scalings (region length not a multiple of the bin, bin 16, other valley thresholds) over <= 5 bins, and %d profiles at the real constants with valleys at 126..130, 255..258 bins and on the last three bins; "
              "non-trivial = more than one sub-region" % (6 if quick else 8, nlong))
